@@ -73,6 +73,13 @@ fn rounds(out: &mut NdjsonOut, rng: &mut Rng, case: u64, mut file: Vec<u8>, g: &
                 inc.new_document.add_object(Object::Integer(round as i64 + 1000));
             }
         }
+        // every fourth round one more object is stored directly in the map of the update, under the first number above
+        // everything in use, WITHOUT going through add_object (direct inserts do not maintain max_id: the saved section,
+        // Size and the number of a cross-reference stream must cover it all the same)
+        if (case + 2 * round as u64) % 4 == 3 {
+            let top = inc.get_prev_documents().max_id.max(inc.new_document.max_id).max(inc.new_document.objects.keys().map(|k| k.0).max().unwrap_or(0));
+            inc.new_document.objects.insert((top + 1, 0), Object::string_literal("stored directly"));
+        }
         let newdoc = doc_to_tla(&inc.new_document);
         let mut outb = Vec::new();
         let res = match guarded(|| inc.save_to(&mut outb)) {
